@@ -359,7 +359,7 @@ inline int RunHarness(int argc, char **argv, const char *default_prop, CaseFn fn
     struct sigaction sa;
     memset(&sa, 0, sizeof sa);
     sa.sa_handler = detail::OnVtAlarm;
-    sigaction(SIGVTALRM, &sa, nullptr);
+    sigaction(SIGPROF, &sa, nullptr);
 #if !defined(__SANITIZE_ADDRESS__) && !defined(__SANITIZE_THREAD__)
     {
       std::string cp = a.out + ".crash." + std::to_string(getpid());
@@ -384,7 +384,7 @@ inline int RunHarness(int argc, char **argv, const char *default_prop, CaseFn fn
       double b = a.cpu_budget_s * budget_mult;
       it.it_value.tv_sec = static_cast<time_t>(b);
       it.it_value.tv_usec = static_cast<suseconds_t>((b - static_cast<time_t>(b)) * 1e6);
-      setitimer(ITIMER_VIRTUAL, &it, nullptr);
+      setitimer(ITIMER_PROF, &it, nullptr);
       shm->in_case = 1;
       struct timespec t0, t1;
       clock_gettime(CLOCK_MONOTONIC, &t0);
@@ -399,7 +399,7 @@ inline int RunHarness(int argc, char **argv, const char *default_prop, CaseFn fn
         }
       }
       memset(&it, 0, sizeof it);
-      setitimer(ITIMER_VIRTUAL, &it, nullptr);
+      setitimer(ITIMER_PROF, &it, nullptr);
       rep.case_done();
       if ((p - from) % 512 == 511) rep.flush();
     }
